@@ -87,6 +87,20 @@ class C37(VectorEngine):
     }
     random_n = {"quick": 1500, "thorough": 20000}
 
+    # with a deviation switched on TLC must find the property's laws violated in the model
+    neg_cfgs = [("MC_Modules_negA.cfg", "InvConfigOnlyDefault", "with_unchecked"), ("MC_Modules_negF.cfg", "InvFilterExact", "fwd_prefix_filter_swapped")]
+
+    def run(self, ctx):
+        from vlib import tlc
+        for cfg, inv, dev in self.neg_cfgs:
+            r = ctx.mc("MC_Modules", cfg, workers=2, timeout=300, expect_violation=True)
+            if not (r["violated"] and inv in r["out"]):
+                raise tlc.ToolError(f"{cfg}: law {inv} does not detect the deviation {dev} (vacuous law)")
+        ctx.exhaustive = None
+        ctx.notes.append("laws violated in the model under the deviations with_unchecked / fwd_prefix_filter_swapped (MC_Modules_negA/negF.cfg): "
+                         "these deviations are violations of the property, not modelling artefacts")
+        super().run(ctx)
+
     def strip(self, vec):
         return {"r": vec["r"], "m": vec["m"], "acc": vec["acc"]}
 
